@@ -30,6 +30,12 @@ impl<'i> Parser<'i> {
         }
     }
 
+    /// Number of pending parser steps in the current message (verification hook, coverage accounting only).
+    #[cfg(feature = "verif-hooks")]
+    pub fn verif_pending(&self) -> u64 {
+        u64::from(self.pending_list_entries)
+    }
+
     fn parse_next(&mut self) -> Result<Option<ParseEvent<'i>>, ParseError> {
         if self.input.is_empty() && self.pending_list_entries == 0 {
             return Ok(None);
